@@ -1204,6 +1204,22 @@ func isContentObject(t types.Type) bool {
 
 const contentKey = "$content"
 
+// absKey: the ghost heap field holding the ABSTRACT STATE of a stateful object seen through a /repo interface
+// (e.g. namer.ImportTracker): observers marked `stateful` are functions of it, mutators name it as `abs(x)` in assigns.
+func absKey(t types.Type) string {
+	if p, ok := t.(*types.Pointer); ok {
+		t = p.Elem()
+	}
+	n, ok := types.Unalias(t).(*types.Named)
+	if !ok || n.Obj().Pkg() == nil {
+		return ""
+	}
+	if _, isI := n.Underlying().(*types.Interface); !isI {
+		return ""
+	}
+	return relPkg(n.Obj().Pkg().Path()) + "." + n.Obj().Name() + ".$abs"
+}
+
 // specialAlloc initialises ghost state for library objects.
 func (fv *FuncVerifier) specialAlloc(st *State, r Term, t types.Type) bool {
 	if n, ok := t.(*types.Named); ok && n.Obj().Pkg() != nil && n.Obj().Pkg().Path() == "sync" && n.Obj().Name() == "Map" {
